@@ -225,3 +225,12 @@ m("c14-lganm-shift-accumulates", ["C14"], L, "        variances = self.variances
 m("c14-scalar-params-normalised-in-place", ["C14"], L, "    interventions = []\n    for (target, params) in interventions_dict.items():",
   "    interventions = []\n    for target in list(interventions_dict):\n        if type(interventions_dict[target]) in [float, int]:\n            interventions_dict[target] = (interventions_dict[target], 0)\n    for (target, params) in interventions_dict.items():",
   note="the caller's intervention dict is rewritten in place (scalars become tuples)")
+m("c04-copula-not-gaussian", ["C04"], ND, "        return np.random.multivariate_normal(self.mean, self.covariance, size=n)",
+  "        X = np.random.multivariate_normal(self.mean, self.covariance, size=n)\n        if self.p >= 2 and n > 2:\n            d = X - self.mean\n            flip = np.sign(d[:, 0]) * np.sign(d[:, 1]) * np.sign(np.random.normal(size=n) + 0.8 * np.sign(self.covariance[0, 1] + 1e-300))\n            X[:, 1] = self.mean[1] + np.abs(d[:, 1]) * np.sign(d[:, 0]) * np.where(np.random.random(n) < 0.5 + 0.5 * self.covariance[0, 1] / np.sqrt(self.covariance[0, 0] * self.covariance[1, 1] + 1e-300), 1, -1)\n        return X",
+  note="variable 1 keeps its normal marginal but its sign is tied to variable 0's by a coin: normal marginals, non-Gaussian joint")
+m("c04-second-half-drifts", ["C04"], ND, "        return np.random.multivariate_normal(self.mean, self.covariance, size=n)",
+  "        X = np.random.multivariate_normal(self.mean, self.covariance, size=n)\n        if n > 100:\n            X[n // 2:] += 0.12 * np.sqrt(np.diag(self.covariance)) * (np.arange(self.p) % 2 * 2 - 1)\n            X[:n // 2] -= 0.12 * np.sqrt(np.diag(self.covariance)) * (np.arange(self.p) % 2 * 2 - 1)\n        return X",
+  note="the two halves of the sample have means +-0.12 sd: overall mean right, rows not identically distributed")
+m("c20-normal-block-correlated", ["C20"], NO, "    return lambda n: np.random.normal(mean, var**0.5, n)",
+  "    def draw(n):\n        z = np.random.normal(0, 1, n)\n        if n > 10:\n            z[5:] = (z[5:] + 0.2 * z[:-5]) / (1 + 0.04) ** 0.5\n        return mean + var**0.5 * z\n    return draw",
+  note="right marginal law, lag-5 autocorrelation 0.2")
